@@ -17,7 +17,7 @@ import ast
 
 import astq
 import cfg as cfgmod
-from model import walk_own, norm, AnalysisError, FuncInfo
+from model import walk_own, AnalysisError, FuncInfo, full as norm
 
 EXPLANATION = (
     'Static analysis of the closures of pack_partitions_to_parquet and the reader functions they reach: exception-handler discipline '
